@@ -9,7 +9,8 @@
    finite without bounding the clock; an entry is live iff x > 0 (the code: not time.Now().After(expiration)).
    Expired in-memory entries keep counting down to Floor (their order matters for the eviction victim).  One *step* of the specification is
    one atomic access of the implementation to the table:
-     mem   : loadOrStore / compareAndSwap / compareAndDelete / load on one key (under the shard mutex)
+     mem   : loadOrStore / compareAndSwap / compareAndDelete / load on one key (under the shard mutex);
+             Lock's take-over of an expired entry is two accesses (loadOrStore sees it, compareAndSwap replaces it)
      redis : one Redis command on one key (SET NX PX, GET, GETEX) or one multi-key DEL
    A public call is Begin ; Step* ; Return.  `FNext` interleaves the steps of several owners and clock ticks
    arbitrarily (exhaustive model: any interleaving, expiry at any point).  `ACall` is a whole call executed
@@ -73,7 +74,7 @@ Max(a, b) == IF a < b THEN b ELSE a
 
 NoGx == [k \in Keys |-> 0]
 Idle == [op |-> "idle", all |-> <<>>, ks |-> <<>>, ttl |-> 0, ph |-> "idle", acq |-> <<>>, failed |-> <<>>,
-         ok |-> TRUE, other |-> None, gx |-> NoGx, nx |-> 0]
+         ok |-> TRUE, other |-> None, gx |-> NoGx, nx |-> 0, seen |-> Empty]
 
 -----------------------------------------------------------------------------
 (* A "local state" st = [tab, fl, c, taint, v, cap] is the part of the state one owner's step reads and writes:
@@ -110,11 +111,19 @@ MemLockStep(st, o) ==                         \* L2InMemoryCache.Lock, one key p
        IF e.o = None                          \* loadOrStore stored
        THEN {[st EXCEPT !.tab = r.tab, !.taint = st.taint \cup r.taint, !.c.ks = Tail(@),
                         !.c.acq = Append(@, k), !.c.gx[k] = new.x] : r \in MemInsert(st, k, new)}
-       ELSE IF ~(e.x > 0)                     \* expired: compareAndSwap (also over an own expired entry)
-       THEN {[st EXCEPT !.tab[k] = new, !.c.ks = Tail(@), !.c.acq = Append(@, k), !.c.gx[k] = new.x]}
+       ELSE IF ~(e.x > 0)                     \* loaded an expired entry (also an own one): compareAndSwap is next
+       THEN {[st EXCEPT !.c.ph = "cas", !.c.seen = e]}
        ELSE IF e.o = o                        \* re-entry, TTL not refreshed
        THEN {[st EXCEPT !.c.ks = Tail(@), !.c.gx[k] = e.x]}
        ELSE {[st EXCEPT !.c.ph = "rb", !.c.ks = c.acq, !.c.ok = FALSE, !.c.other = e.o]}
+
+MemCasStep(st, o) ==                          \* compareAndSwap(key, the expired entry loaded before, new entry)
+  LET c == st.c  k == Head(c.ks)  new == [o |-> o, x |-> c.ttl] IN
+  IF st.tab[k] = c.seen
+  THEN {[st EXCEPT !.tab[k] = new, !.c.ph = "lock", !.c.seen = Empty, !.c.ks = Tail(@),
+                   !.c.acq = Append(@, k), !.c.gx[k] = new.x]}
+  ELSE {[st EXCEPT !.c.ph = "rb", !.c.ks = c.acq, !.c.ok = FALSE,      \* someone else took it: fail, reporting the
+                   !.c.other = c.seen.o, !.c.seen = Empty]}           \* owner of the *expired* entry (as the code does)
 
 MemRollbackStep(st, o) ==                     \* release of the newly acquired keys
   LET c == st.c IN
@@ -202,6 +211,7 @@ StepSet(st, o) ==
   LET ph == st.c.ph IN
   IF st.v = "mem"
   THEN CASE ph = "lock" -> MemLockStep(st, o)
+         [] ph = "cas"  -> MemCasStep(st, o)
          [] ph = "rb"   -> MemRollbackStep(st, o)
          [] ph = "chk"  -> MemCheckStep(st, o)
          [] ph = "vchk" -> MemCheckStep(st, o)
@@ -247,7 +257,7 @@ RunSet(S, o) == IF \A s \in S : s.c.ph = "ret" THEN S
                 ELSE RunSet(UNION {IF s.c.ph = "ret" THEN {s} ELSE StepSet(s, o) : s \in S}, o)
 
 -----------------------------------------------------------------------------
-Init == /\ variant \in Variants /\ cap \in Caps
+Init == /\ variant \in Variants /\ cap \in Caps /\ (variant = "redis" => cap = Inf)     \* capacity is an in-memory matter
         /\ tab = [k \in Keys |-> Empty]
         /\ flag = [o \in Owners |-> [k \in Keys |-> FALSE]]
         /\ call = [o \in Owners |-> Idle]
@@ -261,7 +271,8 @@ Tick == /\ tab' = [k \in Keys |-> IF tab[k].o = None THEN Empty
                                   ELSE [tab[k] EXCEPT !.x = Max(@ - 1, Floor)]]
         /\ grant' = [o \in Owners |-> [k \in Keys |-> Dec0(grant[o][k])]]
         /\ call' = [o \in Owners |-> [call[o] EXCEPT !.gx = [k \in Keys |-> Dec0(@[k])],
-                                                     !.nx = IF call[o].ph = "tref" THEN Max(@ - 1, Floor) ELSE @]]
+                                                     !.nx = IF call[o].ph = "tref" THEN Max(@ - 1, Floor) ELSE @,
+                                                     !.seen = IF @.o = None THEN @ ELSE [@ EXCEPT !.x = Max(@ - 1, Floor)]]]
         /\ UNCHANGED <<variant, cap, flag, taints>>
 
 \* ---- fine grained model
@@ -397,7 +408,7 @@ NeverTainted == (~AllowEvictLive /\ ~AllowForeignDelete /\ ~AllowForeignShorten)
 
 TypeOK == /\ variant \in {"mem", "redis"} /\ cap \in Nat \ {0}
           /\ \A k \in Keys : tab[k].o \in Owners \cup {None} /\ tab[k].x \in Int
-          /\ \A o \in Owners : call[o].ph \in {"idle", "ret", "lock", "rb", "chk", "vchk", "tchk", "tref", "unl",
+          /\ \A o \in Owners : call[o].ph \in {"idle", "ret", "lock", "cas", "rb", "chk", "vchk", "tchk", "tref", "unl",
                                                 "setnx", "get", "getex", "del"}
           /\ (variant = "mem" => \A o \in Owners, k \in Keys : ~flag[o][k])
 
